@@ -73,25 +73,12 @@ func parseCfLine(s string) (cfLine, bool) {
 	return cfLine{}, false
 }
 
-func cfFieldOK(f string) bool {
-	if f == "" {
-		return false
-	}
-	for i := 0; i < len(f); i++ {
-		c := f[i]
-		if !(c >= '0' && c <= '9' || c >= 'A' && c <= 'Z' || c >= 'a' && c <= 'z' || c == '-') {
-			return false
-		}
-	}
-	return true
-}
-
 func cfStatusTokOK(t string) bool {
-	if t == "" || len(t) > 9 {
+	if t == "" || len(t) > 10 {
 		return false
 	}
 	for i := 0; i < len(t); i++ {
-		if !(t[i] >= '0' && t[i] <= '9' || t[i] == 'x') {
+		if !(t[i] >= '0' && t[i] <= '9' || t[i] == 'x' || t[i] == '+' || t[i] == '-') {
 			return false
 		}
 	}
@@ -100,27 +87,8 @@ func cfStatusTokOK(t string) bool {
 
 // entrySupported / lineSupported mirror Caddyfile.lean: the token shapes the model covers.
 func cfEntrySupported(e []string) bool {
-	if len(e) == 0 {
-		return true
-	}
-	rest := e[1:]
-	switch e[0] {
-	case "header":
-		switch {
-		case len(rest) == 0:
-			return true
-		case len(rest) == 1:
-			if strings.HasPrefix(rest[0], "!") {
-				return rest[0] == "!" || cfFieldOK(rest[0][1:])
-			}
-			return true
-		case len(rest) == 2:
-			return strings.HasPrefix(rest[0], "!") || cfFieldOK(rest[0])
-		default:
-			return strings.HasPrefix(rest[0], "!")
-		}
-	case "status":
-		for _, t := range rest {
+	if len(e) > 0 && e[0] == "status" {
+		for _, t := range e[1:] {
 			if !cfStatusTokOK(t) {
 				return false
 			}
@@ -148,7 +116,7 @@ func cfLineSupported(l cfLine) bool {
 		}
 		return true
 	}
-	if l.has {
+	if l.has && l.toks[0] != "gzip" && l.toks[0] != "zstd" {
 		return false
 	}
 	if l.toks[0] == "minimum_length" {
